@@ -88,21 +88,25 @@ def showKOut : Ring.KOut → String
   | .held i => s!"h{i}"
   | .borrowed => "bw"
 
-def runKring (toks : List String) : String :=
+def runKring (cd : Ring.Code) (toks : List String) : String :=
   match splitOps toks [] [] with
   | ["kring", fl, sqk, cqk, c, cc] :: ops =>
     match fl.toNat?, sqk.toNat?, cqk.toNat?, c.toNat?, cc.toNat?, parseKOps ops with
     | some fl, some sqk, some cqk, some c, some cc, some ops =>
       if fl % 2 = 0 ∧ fl / 4 % 256 = 0 ∧ fl / 4096 = 0 ∧ sqk ≤ 10 ∧ cqk ≤ 10 ∧ c < Ring.W ∧ cc < Ring.W then
-        let outs := (Ring.krun2 Ring.nopKern .fixed ⟨Ring.kinit fl sqk cqk c cc, none⟩ ops).2
+        let outs := (Ring.krun2 Ring.nopKern cd (Ring.kinit2 fl sqk cqk c cc) ops).2
         if outs.isEmpty then "ok" else " ".intercalate (outs.map showKOut)
       else "bad-op"
     | _, _, _, _, _, _ => "bad-op"
   | _ => "bad-op"
 
-def step' (_ : Unit) (line : String) : Unit × String :=
+/-- `code fixed|eager-release` selects the modelled version of `get_next_cqe` for the `kring` lines (state of the
+driver; every other line is stateless) -/
+def step' (cd : Ring.Code) (line : String) : Ring.Code × String :=
   match Drv.words line with
-  | "kring" :: rest => ((), runKring ("kring" :: rest))
+  | ["code", "fixed"] => (.fixed, "ok")
+  | ["code", "eager-release"] => (.eagerRelease, "ok")
+  | "kring" :: rest => (cd, runKring cd ("kring" :: rest))
   | "sqe" :: "new_connect_unix" :: rest =>
     -- operands on the line: socket, path length, user_data, sqe_flags; the SocketArgUnix is built by the
     -- harness: addr_len = path length + NUL + sizeof(sa_family_t), pointer canonicalised to 0xA11CE0
@@ -112,14 +116,14 @@ def step' (_ : Unit) (line : String) : Unit × String :=
         let named : List (String × Int) := [("socket", s), ("user_data", ud), ("sqe_flags", fl),
           ("sockaddr.addr_len", plen + 3), ("sockaddr.addr@ptr", 10558688), ("sockaddr.addr_len@ptr", 205520777296651)]
         let vals := c.operands.map fun (nm, _) => match lookup named nm with | some v => v | none => 0
-        if validList c.operands vals then ((), image c vals ++ s!" direct-addrlen {plen + 3}") else ((), "bad-op")
-      else ((), "bad-op")
-    | _, _ => ((), "bad-op")
+        if validList c.operands vals then (cd, image c vals ++ s!" direct-addrlen {plen + 3}") else (cd, "bad-op")
+      else (cd, "bad-op")
+    | _, _ => (cd, "bad-op")
   | "sqe" :: name :: rest =>
     match parseInts rest, findCtor name ctors with
     | some vals, some c =>
-      if name ≠ "new_sendmsg" ∧ validList c.operands vals ∧ ptrOk c vals then ((), image c vals) else ((), "bad-op")
-    | _, _ => ((), "bad-op")
+      if name ≠ "new_sendmsg" ∧ validList c.operands vals ∧ ptrOk c vals then (cd, image c vals) else (cd, "bad-op")
+    | _, _ => (cd, "bad-op")
   | ["teardown", e, f, s, fail, sqe, cqe, arr, cqes] =>
     match e.toNat?, f.toNat?, s.toNat?, sqe.toNat?, cqe.toNat?, arr.toNat?, cqes.toNat? with
     | some _, some f, some s, some sqe, some cqe, some arr, some cqes =>
@@ -127,9 +131,9 @@ def step' (_ : Unit) (line : String) : Unit × String :=
       match fl with
       | some fl =>
         let r := UringRes.script .fixed f ⟨sqe, cqe, arr, cqes, s != 0⟩ fl
-        ((), (if r.1 then "ok " else "err ") ++ " ".intercalate (r.2.map showEv))
-      | none => ((), "bad-op")
-    | _, _, _, _, _, _, _ => ((), "bad-op")
-  | _ => ((), "bad-op")
+        (cd, (if r.1 then "ok " else "err ") ++ " ".intercalate (r.2.map showEv))
+      | none => (cd, "bad-op")
+    | _, _, _, _, _, _, _ => (cd, "bad-op")
+  | _ => (cd, "bad-op")
 
-def main : IO Unit := Drv.run step' ()
+def main : IO Unit := Drv.run step' Ring.Code.fixed
